@@ -26,14 +26,20 @@ type world struct {
 	msize uint32
 
 	// learned from the call log
-	parent    map[int]int            // handle -> parent handle (0 = none)
-	fidHandle []map[uint32]int       // per connection: fid -> handle
-	xrOrigin  map[int]int            // xattr fid serial -> origin handle (shares the File)
-	steps     []stepRec
-	tagNext   uint16
-	life   bool
-	closed bool
+	parent        map[int]int      // handle -> parent handle (0 = none)
+	fidHandle     []map[uint32]int // per connection: fid -> handle
+	xrOrigin      map[int]int      // xattr fid serial -> origin handle (shares the File)
+	steps         []stepRec
+	tagNext       uint16
+	life          bool
+	closed        bool
 	srcParentless bool
+	faultErr      *errSpec
+	faultSeen     bool        // the injected fault has struck
+	faultCall     *memfs.Call // where
+	faultReq      *refcodec.Msg
+	panicked      bool // the fault was a panic: only liveness is asserted afterwards
+	faultAfterOK  int  // backend calls of the faulted request that had succeeded before the fault
 	// desync: a request whose outcome the properties leave open succeeded and
 	// may have changed the backend tree in a way the model does not predict;
 	// the rest of the session is not judged.
@@ -57,7 +63,10 @@ type stepRec struct {
 }
 
 type worldOpts struct {
-	life       bool // check the File lifecycle after every step (C05)
+	faultAt    int      // inject a fault at the k-th backend call made while a request is outstanding (0 = none)
+	faultPanic bool     // the fault is a panic
+	faultErr   *errSpec // the fault is this error value
+	life       bool     // check the File lifecycle after every step (C05)
 	conns      int
 	native     bool
 	monitor    bool
@@ -82,6 +91,14 @@ func newWorld(o worldOpts) (*world, *fail) {
 	w := &world{fs: memfs.New(memfs.Options{NativeWalkGetAttr: o.native, Monitor: o.monitor}), msize: o.msize,
 		parent: map[int]int{}, xrOrigin: map[int]int{}}
 	w.life = o.life
+	if o.faultAt > 0 {
+		w.faultErr = o.faultErr
+		if o.faultPanic {
+			w.fs.FaultAtArmed(o.faultAt, memfs.Fault{Panic: true})
+		} else {
+			w.fs.FaultAtArmed(o.faultAt, memfs.Fault{Err: o.faultErr.build()})
+		}
+	}
 	w.model = refmodel.New(o.conns)
 	o.populate(w.fs.Tree)
 	o.populate(w.model.Tree)
@@ -141,6 +158,19 @@ func (w *world) do(conn int, req *refcodec.Msg) (*stepResult, *fail) {
 	}
 	calls := w.fs.LogSince(before)
 	w.steps = append(w.steps, stepRec{conn, req, rep.String()})
+	if w.panicked {
+		// after a backend panic only liveness is asserted
+		return &stepResult{rep: rep, exp: exp, verdict: refmodel.Verdict{OK: true, Open: true}, calls: calls}, nil
+	}
+	if fc := w.fs.Fired(); fc != nil && !w.faultSeen {
+		w.faultSeen, w.faultCall, w.faultReq = true, fc, req
+		for _, c := range calls {
+			if c.Seq < fc.Seq && c.Errno == 0 {
+				w.faultAfterOK++
+			}
+		}
+		return w.judgeFaulted(conn, req, rep, exp, calls, fc)
+	}
 	v := w.model.Judge(exp, rep)
 	res := &stepResult{rep: rep, exp: exp, verdict: v, calls: calls}
 	if !v.OK {
@@ -360,4 +390,71 @@ func sortedKeys(m map[string]int) []string {
 	}
 	sort.Strings(l)
 	return l
+}
+
+// judgeFaulted judges the reply to the request during which the injected
+// fault struck (C15).
+func (w *world) judgeFaulted(conn int, req, rep *refcodec.Msg, exp *refmodel.Expect, calls []memfs.Call, fc *memfs.Call) (*stepResult, *fail) {
+	res := &stepResult{rep: rep, exp: exp, calls: calls, verdict: refmodel.Verdict{OK: true}}
+	name := refcodec.Name(req.Type)
+	where := fmt.Sprintf("%s during %s", fc.String(), req)
+	if w.faultErr == nil {
+		// panic
+		w.panicked = true
+		if rep.Type != refcodec.Rlerror || rep.U("ecode") != 14 {
+			return res, failf("panic-not-efault:"+fc.Op, "backend panicked in %s; the request was answered %s instead of Rlerror(EFAULT); history: %s", where, rep, w.history())
+		}
+		return res, nil
+	}
+	want := w.faultErr.want()
+	isErr := rep.Type == refcodec.Rlerror
+	if fc.Op == "WalkGetAttr" && want == 38 {
+		// ENOSYS from WalkGetAttr is the documented request to fall back to
+		// Walk + GetAttr, not a failure (other spellings of ENOSYS may be passed on)
+		if isErr && rep.U("ecode") == 38 {
+			exp.ApplyRejected()
+			w.learn(conn, req, rep, calls)
+			return res, nil
+		}
+		v := w.model.Judge(exp, rep)
+		res.verdict = v
+		if !v.OK {
+			return res, &fail{Sig: v.Sig, Msg: v.Msg + "; history: " + w.history()}
+		}
+		w.learn(conn, req, rep, calls)
+		return res, nil
+	}
+	if fc.Op == "Close" {
+		// the File documentation lets the server ignore errors from Close
+		if isErr && uint32(rep.U("ecode")) == want {
+			// the operation itself ran; only the final Close failed
+			exp.ApplyEffects()
+			w.learn(conn, req, rep, calls)
+			return res, nil
+		}
+		v := w.model.Judge(exp, rep)
+		res.verdict = v
+		if !v.OK {
+			return res, &fail{Sig: v.Sig, Msg: v.Msg + " (a Close error was injected: " + where + "); history: " + w.history()}
+		}
+		w.learn(conn, req, rep, calls)
+		return res, nil
+	}
+	if !isErr {
+		return res, failf("backend-error-swallowed:"+fc.Op, "backend returned %s error (errno %d expected at the peer) in %s; the request was answered %s; history: %s", w.faultErr.Style, want, where, rep, w.history())
+	}
+	if uint32(rep.U("ecode")) != want {
+		sig := fmt.Sprintf("errno-mapping:%s:%d->%d", w.faultErr.Style, want, rep.U("ecode"))
+		return res, failf(sig, "backend returned a %s error carrying errno %d in %s; the peer saw errno %d; history: %s", w.faultErr.Style, want, where, rep.U("ecode"), w.history())
+	}
+	_ = name
+	exp.ApplyRejected()
+	w.learn(conn, req, rep, calls)
+	if w.life {
+		if f := w.lifecycle(false); f != nil {
+			f.Msg += " (after the injected error in " + where + ")"
+			return res, f
+		}
+	}
+	return res, nil
 }
